@@ -10,7 +10,8 @@ def check(res):
     n = 12 if res.tier == "quick" else 600
     env = dict(os.environ, ASAN_OPTIONS="detect_leaks=1:abort_on_error=0:allocator_may_return_null=1",
                LSAN_OPTIONS="report_objects=0:max_leaks=8", UBSAN_OPTIONS="print_stacktrace=1:halt_on_error=1")
-    p = run([exe, str(n), str(res.seed)], timeout=7200, env=env)
+    big = 450000 if res.tier == "quick" else 3000000
+    p = run([exe, str(n), str(res.seed), str(big)], timeout=7200, env=env)
     lines = p.stdout.splitlines()
     leaking = [l for l in lines if l.startswith("iteration=") and l.endswith("leak_check=1")]
     done = [l for l in lines if l.startswith("iteration=")]
@@ -18,7 +19,7 @@ def check(res):
     if "ERROR: AddressSanitizer" in p.stderr and "LeakSanitizer" not in p.stderr.split("ERROR: AddressSanitizer")[1][:200] and "leaked in" not in p.stderr:
         keys = True
         res.violation("oracle:asan", "AddressSanitizer reported an access outside live storage while building, printing or destroying a Lexicon",
-                      {"stderr": p.stderr[-4000:], "rerun": "build/<hash>/asan/c19_driver %d %d" % (n, res.seed)})
+                      {"stderr": p.stderr[-4000:], "rerun": "build/<hash>/asan/c19_driver %d %d %d" % (n, res.seed, big)})
     elif p.returncode != 0 and not leaking:
         keys = True
         res.violation("crash", "c19 driver failed (rc=%d)" % p.returncode, {"stderr": p.stderr[-4000:]})
@@ -26,7 +27,7 @@ def check(res):
     if damaged:
         keys = True
         res.violation("oracle:content:" + damaged[0], "a node's own storage does not hold what it was built from: %s" % ", ".join(damaged),
-                      {"reports": [l for l in lines if l.split()[:1] and l.split()[0] in damaged][:5], "rerun": "build/<hash>/asan/c19_driver %d %d" % (n, res.seed)})
+                      {"reports": [l for l in lines if l.split()[:1] and l.split()[0] in damaged][:5], "rerun": "build/<hash>/asan/c19_driver %d %d %d" % (n, res.seed, big)})
     if leaking:
         keys = True
         # first allocation site reported
@@ -43,7 +44,8 @@ def check(res):
         "evaluations": len(done), "distinct_nontrivial": len(done),
         "rule": "each iteration builds a fresh Lexicon with a translation unit and a module, creates one node of every implementation class (zoo), "
                 "200 seeded unified nodes across all tables (incl. strings up to 128 KiB), 40 declarations, a substitution, prints every fourth, "
-                "then destroys everything and asks LeakSanitizer for a recoverable leak check; the whole run is under ASan+UBSan",
+                "then destroys everything and asks LeakSanitizer for a recoverable leak check; a last Lexicon receives %d identifiers in ascending spelling "
+                "order and a chain of %d pointer types (tables filled in monotone key order: trees 35+ levels deep) and is destroyed; the whole run is under ASan+UBSan" % (big, big),
         "samples": done[:2] + lines[-1:],
         "traces_validated_against_impl": len(done),
         "leaking_iterations": len(leaking),
